@@ -56,6 +56,7 @@ static int find_inst(int cls, const int *P)
     }
     return -1;
 }
+static void count_cb(void *u, int cls, const int *P, int aff, int prio) { (void)cls; (void)P; (void)aff; (void)prio; ++*(int *)u; }
 static void inst_cb(void *u, int cls, const int *P, int aff, int prio)
 {
     (void)u;
@@ -164,6 +165,7 @@ static int RUNNING;
 static uint64_t cb_stamp[PTG_MAX_TP]; static int cb_count[PTG_MAX_TP];
 static uint64_t act_begin[16][128], act_end[16][128];
 static int tp_slot_is_ptg[PTG_MAX_TP];
+static int tp_empty[PTG_MAX_TP];      /* taskpool created with every global = 0: no task instance at all (only if the program really is empty then) */
 static int tp_epoch[PTG_MAX_TP], tp_member_of[PTG_MAX_TP], epoch_wait_action[16], NEPOCH;
 
 static int want(int p) { return PROP == p; }
@@ -286,6 +288,9 @@ static void plan_to_shared(const hx_plan_t *p)
     int started = 0, n = 0;
     NTP = 0;
     memset(tp_slot_is_ptg, 0, sizeof(tp_slot_is_ptg));
+    memset(tp_empty, 0, sizeof(tp_empty));
+    int empty_ok = 0;
+    { static const int GZ[4] = {0, 0, 0, 0}; int cnt = 0; for (int c = 0; c < PTG_REF.nclasses; c++) PTG_REF.classes[c].enumerate(GZ, count_cb, &cnt); empty_ok = cnt == 0; }
     memset(tp_epoch, -1, sizeof(tp_epoch));
     memset(tp_member_of, -1, sizeof(tp_member_of));
     memset(epoch_wait_action, -1, sizeof(epoch_wait_action));
@@ -295,11 +300,11 @@ static void plan_to_shared(const hx_plan_t *p)
         int a = (int)(o->a % PTG_MAX_TP);
         ptg_action_t act = {0, a, (int)o->b, (int)o->c};
         switch (o->op) {
-        case OP_NEW: if (exists[a]) continue; exists[a] = 1; tp_slot_is_ptg[a] = 1; NTP++; act.kind = PA_NEW; break;
+        case OP_NEW: if (exists[a]) continue; exists[a] = 1; tp_slot_is_ptg[a] = 1; NTP++; act.kind = PA_NEW; act.b = (o->b % 3 == 2) ? 2 : (empty_ok && (o->b % 3 == 1)); act.c = 0; tp_empty[a] = act.b; break;
         case OP_ADD: if (!exists[a] || added[a] || composed[a]) continue; added[a] = 1; tp_epoch[a] = NEPOCH; act.kind = PA_ADD; break;
         case OP_CHAIN: {
             int b = (int)(o->b % PTG_MAX_TP);
-            if (!exists[a] || !exists[b] || a == b || added[a] == 0 || added[b] || composed[b] || chained_from[a] || !tp_slot_is_ptg[a] || !tp_slot_is_ptg[b] || started) continue;
+            if (!exists[a] || !exists[b] || a == b || added[a] == 0 || added[b] || composed[b] || chained_from[a] || !tp_slot_is_ptg[a] || !tp_slot_is_ptg[b] || started || tp_empty[a] == 2 /* it completed inside its add: too late to chain from it */) continue;
             added[b] = 1; by_callback[b] = 1; chained_from[a] = 1; tp_epoch[b] = NEPOCH; act.kind = PA_CHAIN; act.b = b;
             break;
         }
@@ -377,17 +382,20 @@ static void gen(hx_plan_t *p, hx_rng_t *r)
     long hist = hx_cli_knob("hist", 0);
     if (hist == 15) {
         int k = hx_chance(r, 60) ? (int)hx_range(r, 1, 6) : (int)hx_range(r, 7, 20);
-        for (int i = 0; i < k; i++) hx_add_op(p, 0, OP_NEW, i, 0, 0);
+        int empties = hx_chance(r, 45);                 /* some members without any task: they complete inside parsec_context_add_taskpool */
+        for (int i = 0; i < k; i++) hx_add_op(p, 0, OP_NEW, i, empties && hx_chance(r, 35) ? 1 + hx_chance(r, 50) : 0, 0);
         hx_add_op(p, 0, OP_COMPOSE, k, 0, k);
+        int start_first = hx_chance(r, 50);             /* the compound is added to an already started context */
+        if (start_first) hx_add_op(p, 0, OP_START, 0, 0, 0);
         hx_add_op(p, 0, OP_ADD, k, 0, 0);
         if (hx_chance(r, 30)) { hx_add_op(p, 0, OP_NEW, k + 1, 0, 0); hx_add_op(p, 0, OP_ADD, k + 1, 0, 0); }   /* an independent taskpool alongside */
-        hx_add_op(p, 0, OP_START, 0, 0, 0);
+        if (!start_first) hx_add_op(p, 0, OP_START, 0, 0, 0);
         hx_add_op(p, 0, OP_CTXWAIT, 0, 0, 0);
     } else if (hist == 6) {
         int slot = 0, epochs = (int)hx_range(r, 1, 4);
         for (int e = 0; e < epochs && slot < PTG_MAX_TP - 4; e++) {
             int n = (int)hx_range(r, 1, 3), first = slot;
-            for (int i = 0; i < n; i++) hx_add_op(p, 0, OP_NEW, slot++, 0, 0);
+            for (int i = 0; i < n; i++) hx_add_op(p, 0, OP_NEW, slot++, hx_chance(r, 15) ? 1 + hx_chance(r, 50) : 0, 0);      /* b = 1: a PTG taskpool without any task; 2: a map operator without tiles */
             int pre = (int)hx_below(r, n + 1);              /* how many are added before start */
             int chained = n >= 2 && hx_chance(r, 35);       /* last one is added by the completion callback of the first */
             for (int i = 0; i < pre; i++) if (!(chained && i == n - 1)) hx_add_op(p, 0, OP_ADD, first + i, 0, 0);
@@ -519,6 +527,7 @@ static void run(const hx_plan_t *p, hx_result_t *res)
         if (!tp_slot_is_ptg[t]) continue;
         for (int i = 0; i < NINST && !res->vclass; i++) {
             obs_t *o = &OBS[t][i];
+            if (tp_empty[t]) { if (o->count) hx_fail(res, "garbage-task", "taskpool %d was created empty (all globals 0) but %s ran", t, inst_name(i, nm, sizeof(nm))); continue; }
             if (o->count != 1) hx_fail(res, o->count ? "task-ran-twice" : "task-lost", "taskpool %d: %s ran %d times (instance set of the program has it once)", t, inst_name(i, nm, sizeof(nm)), o->count);
             else if ((want(1) || want(5)) && o->rank != INST[i].aff % SH.nranks)
                 hx_fail(res, "wrong-rank", "taskpool %d: %s ran on rank %d, its affinity A(%d) lives on rank %d", t, inst_name(i, nm, sizeof(nm)), o->rank, INST[i].aff, INST[i].aff % SH.nranks);
@@ -574,18 +583,21 @@ static void run(const hx_plan_t *p, hx_result_t *res)
     }
     if ((want(15) || want(6)) && !res->vclass) {
         uint64_t tmin[PTG_MAX_TP], tmax[PTG_MAX_TP];
-        for (int t = 0; t < PTG_MAX_TP; t++) { tmin[t] = UINT64_MAX; tmax[t] = 0; if (tp_slot_is_ptg[t]) for (int i = 0; i < NINST; i++) { if (OBS[t][i].begin < tmin[t]) tmin[t] = OBS[t][i].begin; if (OBS[t][i].end > tmax[t]) tmax[t] = OBS[t][i].end; } }
+        for (int t = 0; t < PTG_MAX_TP; t++) { tmin[t] = UINT64_MAX; tmax[t] = 0; if (tp_slot_is_ptg[t] && !tp_empty[t]) for (int i = 0; i < NINST; i++) { if (OBS[t][i].begin < tmin[t]) tmin[t] = OBS[t][i].begin; if (OBS[t][i].end > tmax[t]) tmax[t] = OBS[t][i].end; } }
         for (int ai = 0; ai < SH.nactions && !res->vclass; ai++) {
             ptg_action_t *a = &SH.actions[ai];
             if (a->kind == PA_COMPOSE && want(15)) {
                 /* C15: members run strictly one after another; the compound's callback fires once, after the last */
-                for (int k = 0; k + 1 < a->c && !res->vclass; k++)
-                    if (NINST && !(tmax[a->b + k] < tmin[a->b + k + 1]))
-                        hx_fail(res, "composed-overlap", "composed taskpool %d began (first task at stamp %llu) before its predecessor %d finished (last task ended at %llu)", a->b + k + 1,
-                                (unsigned long long)tmin[a->b + k + 1], a->b + k, (unsigned long long)tmax[a->b + k]);
+                for (int k = 0, last = -1; k < a->c && !res->vclass; k++) {
+                    if (tp_empty[a->b + k]) continue;           /* an empty member has no task to order */
+                    if (last >= 0 && NINST && !(tmax[a->b + last] < tmin[a->b + k]))
+                        hx_fail(res, "composed-overlap", "composed taskpool %d began (first task at stamp %llu) before its predecessor %d finished (last task ended at %llu)", a->b + k,
+                                (unsigned long long)tmin[a->b + k], a->b + last, (unsigned long long)tmax[a->b + last]);
+                    last = k;
+                }
                 int cbslot = a->a;      /* the callback is registered under the slot that gets added */
                 if (!res->vclass && cb_count[cbslot] != 1) hx_fail(res, "callback-count", "completion callback of the compound %d ran %d times", a->a, cb_count[cbslot]);
-                else if (!res->vclass && NINST && cb_stamp[cbslot] < tmax[a->b + a->c - 1]) hx_fail(res, "callback-early", "completion callback of the compound %d ran before the last task of its last member ended", a->a);
+                else if (!res->vclass && NINST) for (int k = 0; k < a->c && !res->vclass; k++) if (cb_stamp[cbslot] < tmax[a->b + k]) hx_fail(res, "callback-early", "completion callback of the compound %d ran before the last task of its last member ended", a->a);
             }
             if (a->kind == PA_TPWAIT && want(6) && tp_slot_is_ptg[a->a]) {
                 if (NINST && !(tmax[a->a] < act_end[0][ai]))
